@@ -232,7 +232,7 @@ impl World {
         });
         if let Ok(Some(a)) = ok {
             let snap = if self.track {
-                Some(json!({"view": view(&rep.m), "trees": trees(&rep.m)}))
+                Some(json!({"view": view(&rep.m), "trees": trees(&rep.m), "values": revision_values(&rep.m)}))
             } else {
                 None
             };
@@ -462,6 +462,32 @@ pub fn trees(m: &Melda) -> Value {
             t.insert(uuid.clone(), json!(m.verif_dump_tree(&uuid)));
         }
         Value::Object(t)
+    }) {
+        Ok(v) => v,
+        Err(p) => json!({ "panic": p }),
+    }
+}
+
+/// value and parent of every recorded revision of every object: uuid -> rev -> [value, parent]
+pub fn revision_values(m: &Melda) -> Value {
+    match call("revision_values", || {
+        let mut out = Map::new();
+        for uuid in m.get_all_objects() {
+            let mut per = Map::new();
+            for (rev, _, _) in m.verif_dump_tree(&uuid).unwrap_or_default() {
+                let v = match m.get_value(&uuid, Some(&rev)) {
+                    Ok(v) => Value::Object(v),
+                    Err(e) => json!(format!("err:{}", e)),
+                };
+                let p = match m.get_parent_revision(&uuid, &rev) {
+                    Ok(p) => json!(p),
+                    Err(e) => json!(format!("err:{}", e)),
+                };
+                per.insert(rev, json!([v, p]));
+            }
+            out.insert(uuid, Value::Object(per));
+        }
+        Value::Object(out)
     }) {
         Ok(v) => v,
         Err(p) => json!({ "panic": p }),
